@@ -218,16 +218,19 @@ def expandFourSides (P : Params) (shorthand : String) (names : List String) (tok
       | _, _, _, _ => none
     | _, _ => none
 
+def Tok.isSlash : Tok → Bool
+  | .lit s => s = "/"
+  | _ => false
+
 /-- split at the `/` separators as `_borderRadius` does: `none` for a trailing `/` or a second `/` -/
 def splitSlash : List Tok → Option (List Tok × List Tok)
   | [] => some ([], [])
-  | .lit "/" :: rest =>
-    if rest = [] then none
-    else if rest.any (fun t => t == .lit "/") then none
-    else some ([], rest)
-  | t :: rest => match splitSlash rest with
-    | some (h, v) => some (t :: h, v)
-    | none => none
+  | t :: rest =>
+    if t.isSlash then
+      (if rest.isEmpty then none else if rest.any Tok.isSlash then none else some ([], rest))
+    else match splitSlash rest with
+      | some (h, v) => some (t :: h, v)
+      | none => none
 
 def cornerNames : List String :=
   ["border-top-left-radius", "border-top-right-radius", "border-bottom-right-radius", "border-bottom-left-radius"]
@@ -237,7 +240,7 @@ def borderRadius (P : Params) (tokens : List Tok) : Option (List (String × List
   match splitSlash tokens with
   | none => none
   | some (h, v0) =>
-    let v := if v0 = [] then h else v0
+    let v := if v0.isEmpty then h else v0
     match fourOf h, fourOf v with
     | some (h0, h1, h2, h3), some (v0, v1, v2, v3) =>
       let pairs := [("border-top-left-radius", [h0, v0]), ("border-top-right-radius", [h1, v1]),
